@@ -132,6 +132,51 @@ def scenarios(ctx):
         tokz = {"payload": pay, "protected": G.enc({"alg": alg}), "signature": G.b64u(r_.to_bytes(w_, "big") * 2)}
         out.append(("jws.ver", {"jws": tokz, "jwk": K.public(k_), "all": False}))
         out.append(("jws.ver_io", {"jws": {k: v for k, v in tokz.items() if k != "payload"}, "jwk": K.public(k_), "all": False, "feeds": [pay.encode().hex()]}))
+    # one call for several keys with ONE template: whatever allocation fails, the call fails or the result is the
+    # fault-free one (in particular the template's members are not silently dropped for some of the keys)
+    out.append(("jws.sig", {"jws": {"payload": pay}, "sig": {"protected": {"alg": "HS256"}, "header": {"kid": "k"}}, "jwk": [pool["oct-32"], pool["oct-64"]]}))
+    out.append(("jws.sig", {"jws": {"payload": pay}, "sig": {"header": {"kid": "shared"}}, "jwk": {"keys": [pool["oct-32"], pool["oct-64"]]}}))
+    out.append(("jwe.enc_jwk", {"jwe": {"protected": {"enc": "A128GCM"}}, "rcp": {"header": {"kid": "r"}}, "jwk": [pool["oct-16"], pool["oct-32"]], "cek": {},
+                                "rand": rng.randbytes(300).hex()}))
+    out.append(("jwe.enc", {"jwe": {"protected": {"enc": "A128GCM"}}, "rcp": {"header": {"kid": "r", "x": [1, {"y": 2}]}}, "jwk": {"keys": [pool["oct-16"], pool["oct-24"]]},
+                            "pt": "0011", "rand": rng.randbytes(300).hex()}))
+    # several keys, every key demanded, one signature invalid: the verdict stays failure under every fault
+    two = ctx.real([("jws.sig", {"jws": {"payload": pay}, "sig": [{"protected": {"alg": "HS256"}}, {"protected": {"alg": "ES256"}}], "jwk": [pool["oct-32"], pool["EC-P256"]]})])[0]
+    if two.get("ok") and isinstance(two["jws"].get("signatures"), list):
+        t2 = json.loads(json.dumps(two["jws"]))
+        t2["signatures"][1]["signature"] = G.b64u(bytes(range(64)))
+        out.append(("jws.ver", {"jws": t2, "jwk": [pool["oct-32"], pool["EC-P256"]], "all": True}))
+        out.append(("jws.ver", {"jws": t2, "jwk": {"keys": [pool["EC-P256"], pool["oct-32"]]}, "all": True}))
+        out.append(("jws.ver_io", {"jws": {k: v for k, v in t2.items() if k != "payload"}, "jwk": [pool["oct-32"], pool["EC-P256"]], "all": True, "feeds": [pay.encode().hex()]}))
+    # JWE whose fault-free verdict is failure: a compressed token above the 256 KiB bound of one-shot decryption, and
+    # tokens with a wrong tag / a wrong encrypted key for several key-management algorithms
+    cekz = {"kty": "oct", "k": G.b64u(rng.randbytes(16))}
+    big = ctx.real([("jwe.enc_cek", {"jwe": {"protected": {"enc": "A128GCM", "zip": "DEF"}}, "cek": cekz, "pt": rng.randbytes(200000).hex(), "rand": "44" * 16})])[0]
+    if big.get("ok"):
+        out.append(("jwe.dec_cek", {"jwe": big["jwe"], "cek": cekz}))
+    for w, kn in (("A128KW", "oct-16"), ("A256GCMKW", "oct-32"), ("RSA-OAEP", "RSA-2048"), ("ECDH-ES", "EC-P256"), ("dir", None)):
+        key = pool[kn] if kn else dict(cekz, alg="A128GCM")
+        t = ctx.real([("jwe.enc", {"jwe": {"protected": {"alg": w, "enc": "A128GCM"}}, "jwk": key, "pt": "001122", "rand": rng.randbytes(300).hex()})])[0]
+        if t.get("ok"):
+            out.append(("jwe.dec", {"jwe": dict(t["jwe"], tag=G.b64u(bytes(16))), "jwk": key, "rand": "00" * 600}))
+            if t["jwe"].get("encrypted_key"):
+                ek = G.b64d(t["jwe"]["encrypted_key"])
+                out.append(("jwe.dec", {"jwe": dict(t["jwe"], encrypted_key=G.b64u(bytes([ek[0] ^ 1]) + ek[1:])), "jwk": key, "rand": "00" * 600}))
+    # inference and default branches that allocate: nothing named in the template, default PBES2 count, encoded protected
+    out.append(("jwe.enc", {"jwe": {}, "jwk": pool["oct-16"], "pt": "00", "rand": rng.randbytes(300).hex()}))
+    out.append(("jwe.enc", {"jwe": {"protected": G.enc({"kid": "p"})}, "jwk": pool["oct-16"], "pt": "00", "rand": rng.randbytes(300).hex()}))
+    out.append(("jwe.enc", {"jwe": {"protected": {"alg": "PBES2-HS256+A128KW", "enc": "A128GCM"}}, "jwk": "password", "pt": "00", "rand": rng.randbytes(300).hex()}))
+    out.append(("jws.sig", {"jws": {"payload": pay}, "jwk": pool["oct-32"]}))
+    for t in ({"alg": "A128KW"}, {"alg": "A128GCM"}, {"alg": "ECMR"}, {"alg": "ECDH-ES+A128KW"}):
+        out.append(("jwk.gen", {"jwk": t, "rand": rng.randbytes(80).hex()}))
+    out.append(("ossl.roundtrip", {"jwk": pool["oct-32"]}))
+    out.append(("io.run", {"chain": ["b64enc", ["file"]], "feeds": ["616263", "6465"]}))
+    # RSA1_5 unwrap (the random-key countermeasure must not turn a failed store into success)
+    for w in ("RSA1_5", "RSA-OAEP-256"):
+        t = ctx.real([("jwe.enc", {"jwe": {"protected": {"alg": w, "enc": "A128CBC-HS256"}}, "jwk": pool["RSA-2048"], "pt": "001122", "rand": rng.randbytes(300).hex()})])[0]
+        if t.get("ok"):
+            out.append(("jwe.dec_jwk", {"jwe": t["jwe"], "jwk": pool["RSA-2048"], "rand": "00" * 600}))
+            out.append(("jwe.dec", {"jwe": t["jwe"], "jwk": pool["RSA-2048"], "rand": "00" * 600}))
     # IO chains and codecs
     for ch in (["b64enc", ["malloc"]], ["b64dec", ["malloc"]], ["hash", "S256", ["buffer", 32]], ["hash", "S512", ["b64enc", ["malloc"]]],
                ["deflate", ["inflate", ["malloc"]]], ["plex", True, [["b64enc", ["malloc"]], ["hash", "S384", ["buffer", 48]]]],
